@@ -320,8 +320,7 @@ theorem rmData_inv (s : State) (set : String) (d : Ref) (strict : Bool) (hi : In
   · exact hi
   · split
     · exact hi
-    · simp only []
-      split
+    · split
       · exact hi
       · split
         · rename_i s1 h1; exact rmDataH_inv s s1 _ _ strict hi h1
